@@ -2,6 +2,7 @@
    (coq/gen/atmosphere.v is regenerated from the source on every run, so these statements are
    re-checked against what the code says now). Only statements, `exact`, Print Assumptions. *)
 From Coq Require Import Reals.
+From Coquelicot Require Import Coquelicot.
 From TyphonGen Require Import atmosphere.
 From Typhon Require Import Proofs.C09_humidity.
 Open Scope R_scope.
@@ -61,18 +62,33 @@ Theorem equal_at_triple_point :
   Rabs (e_eq_water_mk c_triple_point_water / e_eq_ice_mk c_triple_point_water - 1) <= 1e-6.
 Proof. exact eq_at_triple_point. Qed.
 
-(* -- mixed phase: ice below T_t - 23, liquid above T_t, between them everywhere, and the blend takes the
-      pure-phase values at the two joints (with the continuity of the two pure-phase formulas this is
-      continuity of the mixed formula; the epsilon-delta statement itself is not proved: named gap) -- *)
-Theorem mixed_phase_partial : forall T,
+(* -- mixed phase: ice below T_t - 23, liquid above T_t, positive and between them everywhere, the blend takes the
+      pure-phase values at the two joints, and the function is continuous at every T > 0 -- in particular at the
+      two temperatures where the translated piecewise definition switches branches -- spelled out with epsilon
+      and delta -- *)
+Theorem mixed_phase : forall T,
   (T < c_triple_point_water - 23 -> e_eq_mixed_mk T = e_eq_ice_mk T) /\
   (c_triple_point_water < T -> e_eq_mixed_mk T = e_eq_water_mk T) /\
   Rmin (e_eq_ice_mk T) (e_eq_water_mk T) <= e_eq_mixed_mk T <= Rmax (e_eq_ice_mk T) (e_eq_water_mk T) /\
+  0 < e_eq_mixed_mk T /\
   e_eq_mixed_mk (c_triple_point_water - 23) = e_eq_ice_mk (c_triple_point_water - 23) /\
-  e_eq_mixed_mk c_triple_point_water = e_eq_water_mk c_triple_point_water.
+  e_eq_mixed_mk c_triple_point_water = e_eq_water_mk c_triple_point_water /\
+  (0 < T -> forall eps, 0 < eps -> exists delta, 0 < delta /\
+     forall T', Rabs (T' - T) < delta -> Rabs (e_eq_mixed_mk T' - e_eq_mixed_mk T) < eps).
 Proof. intros T. repeat split;
   [exact (mixed_is_ice T)|exact (mixed_is_liquid T)|exact (proj1 (mixed_between T))|exact (proj2 (mixed_between T))
-  |exact mixed_joint_ice|exact mixed_joint_liquid]. Qed.
+  |exact (mixed_pos T)|exact mixed_joint_ice|exact mixed_joint_liquid|exact (mixed_eps_delta T)]. Qed.
+
+(* -- the same continuity in the vocabulary of Coquelicot (filters) and of the standard library -- *)
+Theorem mixed_phase_continuous : forall T, 0 < T ->
+  continuous e_eq_mixed_mk T /\ continuity_pt e_eq_mixed_mk T.
+Proof. intros T H. split; [exact (mixed_continuous T H)|exact (mixed_continuity_pt T H)]. Qed.
+
+(* -- the mixed-phase pressure is strictly increasing on all of [100, 400] K, across both joints
+      (ice branch, blend -- derivative sign by interval arithmetic -- and liquid branch, chained at the joints) -- *)
+Theorem mixed_phase_increasing : forall T1 T2, 100 <= T1 -> T1 < T2 -> T2 <= 400 ->
+  e_eq_mixed_mk T1 < e_eq_mixed_mk T2.
+Proof. exact mixed_incr. Qed.
 
 (* -- non-positive temperatures are rejected -- *)
 Theorem nonpositive_temperature_rejected : forall T, T <= 0 -> e_eq_water_mk_raises T /\ e_eq_ice_mk_raises T.
@@ -97,6 +113,15 @@ Proof. exact lapse_bounds. Qed.
 Example nonvacuous : (0 <= 0.02 < 1) /\ (100 <= 250 <= c_triple_point_water) /\ (0 < 300 <= 400).
 Proof. unfold c_triple_point_water. repeat split; Lra.lra. Qed.
 
+(* non-vacuity of the new hypotheses: both joints are positive temperatures (continuity applies there), and the
+   monotonicity theorem applies to pairs that straddle each joint *)
+Example nonvacuous_mixed :
+  (0 < c_triple_point_water - 23) /\ (0 < c_triple_point_water) /\
+  e_eq_mixed_mk 240 < e_eq_mixed_mk 260 /\ e_eq_mixed_mk 260 < e_eq_mixed_mk 280 /\
+  continuity_pt e_eq_mixed_mk (c_triple_point_water - 23) /\ continuity_pt e_eq_mixed_mk c_triple_point_water.
+Proof. unfold c_triple_point_water. repeat split; try Lra.lra;
+  try (apply mixed_phase_increasing; Lra.lra); apply mixed_phase_continuous; Lra.lra. Qed.
+
 Print Assumptions converters_inverse.
 Print Assumptions routes_agree.
 Print Assumptions converters_zero.
@@ -105,7 +130,9 @@ Print Assumptions saturation_positive.
 Print Assumptions saturation_increasing.
 Print Assumptions ice_below_liquid.
 Print Assumptions equal_at_triple_point.
-Print Assumptions mixed_phase_partial.
+Print Assumptions mixed_phase.
+Print Assumptions mixed_phase_continuous.
+Print Assumptions mixed_phase_increasing.
 Print Assumptions nonpositive_temperature_rejected.
 Print Assumptions rh_vmr_inverse_any_e_eq.
 Print Assumptions lapse_rate_bounds.
